@@ -204,7 +204,7 @@ def check(prop, tier, seed, t0, no_build=False):
         else:
             violations.append(rec)
     # correspondence disagreements that are not explained by a spec failure at the same input
-    spec_ops = set(json.dumps(r["real"], default=str) for r in st["specfails"])
+    spec_ops = set(json.dumps(r["real"], default=str) for r in violations)
     corr_only = [r for r in st["mismatches"] if json.dumps(r["real"], default=str) not in spec_ops]
     # a disagreement at an input where a *known* finding applies is still a disagreement of the tie,
     # unless the property module says the model is not expected to mirror the code there
